@@ -330,3 +330,172 @@ func (g *G) ID() interface{} {
 		return int32(1 + g.N(8))
 	}
 }
+
+// ---------------------------------------------------------------------------
+// updates
+
+// UpdPaths are paths used by generated updates.
+var UpdPaths = []string{"a", "b", "c", "d", "e", "a.b", "a.a", "b.a", "a.0", "a.1", "b.0", "a.b.c", "a.0.b", "a.3", "c.d", "e.f", "a.$[]", "a.$[x]", "b.$[]", "a.$[x].b", "a.$[].a", "b.$[y]", "a.b.$[]"}
+
+// existingPaths lists paths of fields present in the document (depth 2).
+func existingPaths(d bson.D, prefix string, depth int, out *[]string) {
+	for _, e := range d {
+		p := e.Key
+		if prefix != "" {
+			p = prefix + "." + e.Key
+		}
+		*out = append(*out, p)
+		if depth > 0 {
+			if sub, ok := e.Value.(bson.D); ok {
+				existingPaths(sub, p, depth-1, out)
+			}
+			if arr, ok := e.Value.(bson.A); ok {
+				for i := range arr {
+					*out = append(*out, p+"."+strconv.Itoa(i))
+					if sub, ok := arr[i].(bson.D); ok && depth > 0 {
+						existingPaths(sub, p+"."+strconv.Itoa(i), 0, out)
+					}
+				}
+			}
+		}
+	}
+}
+
+// UpdPath returns an update path, often one that exists in the document.
+func (g *G) UpdPath(doc bson.D) string {
+	if g.P(50) {
+		var ps []string
+		existingPaths(doc, "", 2, &ps)
+		if len(ps) > 0 {
+			return ps[g.N(len(ps))]
+		}
+	}
+	if g.P(60) {
+		return UpdPaths[g.N(5)]
+	}
+	return UpdPaths[g.N(len(UpdPaths))]
+}
+
+// SmallNum returns a number suitable for arithmetic (exactly representable results).
+func (g *G) SmallNum() interface{} {
+	return g.Pick(int32(1), int32(2), int32(-3), int32(5), int32(0), int64(1), int64(7), int64(-2), float64(1), float64(2.5), float64(-0.5), float64(4),
+		dec("1"), dec("2.5"), dec("-1.5"), dec("3"))
+}
+
+// UpdArg returns an argument for the operator.
+func (g *G) UpdArg(op string, doc bson.D) interface{} {
+	switch op {
+	case "$set", "$setOnInsert", "$min", "$max":
+		return g.Operand(doc, g.P(55))
+	case "$unset":
+		return g.Pick("", int32(1), true)
+	case "$rename":
+		return g.PickS("a", "b", "c", "e", "a.b", "e.f", "b.a", "d", "c.d", "a.0")
+	case "$inc", "$mul":
+		if g.P(6) {
+			return g.Pick("x", nil, true)
+		}
+		return g.SmallNum()
+	case "$currentDate":
+		return g.Pick(true, false, bson.D{{Key: "$type", Value: "date"}}, bson.D{{Key: "$type", Value: "timestamp"}})
+	case "$push":
+		if g.P(45) {
+			return g.Operand(doc, g.P(70))
+		}
+		n := g.N(4)
+		each := make(bson.A, 0, n)
+		for i := 0; i < n; i++ {
+			each = append(each, g.Operand(doc, g.P(80)))
+		}
+		d := bson.D{{Key: "$each", Value: each}}
+		if g.P(40) {
+			d = append(d, bson.E{Key: "$position", Value: g.Pick(int32(0), int32(1), int32(-1), int64(2), int32(9), int32(-9), float64(1))})
+		}
+		if g.P(35) {
+			if g.P(60) {
+				d = append(d, bson.E{Key: "$sort", Value: g.Pick(int32(1), int32(-1), int64(1))})
+			} else {
+				d = append(d, bson.E{Key: "$sort", Value: bson.D{{Key: g.PickS("a", "b", "a.b"), Value: g.Pick(int32(1), int32(-1))}}})
+			}
+		}
+		if g.P(35) {
+			d = append(d, bson.E{Key: "$slice", Value: g.Pick(int32(0), int32(1), int32(2), int32(-1), int32(-2), int64(3), int32(9))})
+		}
+		return d
+	case "$pop":
+		return g.Pick(int32(1), int32(-1), int64(1), float64(-1), int32(1), int32(-1))
+	case "$pull":
+		switch g.N(4) {
+		case 0:
+			return bson.D{g.OneOp(doc, 0)}
+		case 1:
+			return bson.D{{Key: g.PickS("a", "b"), Value: g.Operand(doc, true)}}
+		default:
+			return g.Operand(doc, g.P(80))
+		}
+	case "$pullAll":
+		n := g.N(3)
+		a := make(bson.A, 0, n)
+		for i := 0; i < n; i++ {
+			a = append(a, g.Operand(doc, g.P(80)))
+		}
+		return a
+	case "$addToSet":
+		if g.P(60) {
+			return g.Operand(doc, g.P(70))
+		}
+		n := g.N(4)
+		each := make(bson.A, 0, n)
+		for i := 0; i < n; i++ {
+			each = append(each, g.Operand(doc, g.P(80)))
+		}
+		return bson.D{{Key: "$each", Value: each}}
+	case "$bit":
+		return bson.D{{Key: g.PickS("and", "or", "xor"), Value: g.Pick(int32(1), int32(3), int32(6), int64(5), int32(12))}}
+	}
+	return nil
+}
+
+// UpdateOpNames lists the supported update operators.
+var UpdateOpNames = []string{"$set", "$set", "$set", "$setOnInsert", "$unset", "$unset", "$rename", "$inc", "$inc", "$mul", "$min", "$max", "$currentDate",
+	"$push", "$push", "$pop", "$pull", "$pullAll", "$addToSet", "$bit"}
+
+// Update returns an update document and array filters.
+func (g *G) Update(doc bson.D) (bson.D, []bson.D) {
+	n := 1
+	if g.P(35) {
+		n = 2 + g.N(2)
+	}
+	upd := bson.D{}
+	used := map[string]bool{}
+	for i := 0; i < n; i++ {
+		op := UpdateOpNames[g.N(len(UpdateOpNames))]
+		if used[op] {
+			continue
+		}
+		used[op] = true
+		m := 1
+		if g.P(25) {
+			m = 2
+		}
+		args := bson.D{}
+		seen := map[string]bool{}
+		for j := 0; j < m; j++ {
+			p := g.UpdPath(doc)
+			if seen[p] {
+				continue
+			}
+			seen[p] = true
+			args = append(args, bson.E{Key: p, Value: g.UpdArg(op, doc)})
+		}
+		upd = append(upd, bson.E{Key: op, Value: args})
+	}
+	var afs []bson.D
+	if g.P(85) {
+		afs = append(afs, bson.D{{Key: "x", Value: bson.D{g.OneOp(doc, 0)}}})
+		if g.P(40) {
+			afs = append(afs, bson.D{{Key: g.PickS("y", "y.a", "x.b"), Value: g.Operand(doc, true)}})
+		}
+	}
+	return upd, afs
+}
